@@ -5,8 +5,12 @@ CHECKS = [
   "text": "For every parameter vector inside the lmfit bounds and every indentation array of length N<=3 (thorough <=6), z3 shows the unmodified model_func equals the literature formula plus baseline in contact and the baseline off contact (reals); model_doc constants equal the same oracle. Counterexamples are replayed on real numpy.",
   "note": "reals not doubles; tan uninterpreted (shared); oracle /verif/specs.py; bounds N; overflow and the truncated-series-vs-exact-Sneddon clause outside the quick tier",
   "technique": SYMX},
+ {"id": "C04", "level": "other",
+  "text": "For every curve of N=6 symbolic samples (layouts 4+2, 3+3; thorough adds 5+3, 6+0 and all five models), every range [a,b], weighting distance, correction factor k>0 and initial values, z3 shows on every path of the real fit_model/IndentationFitter/residual/model_func chain that fit, residuals, chi-square, fit range, xmin/xmax, reported contact point and the success flag satisfy the stated mutual-consistency relations; the optimiser is an arbitrary-value contract stub. Counterexamples are replayed on the real code with lmfit.minimize patched to return the model's values.",
+  "note": "reals not doubles; lmfit.minimize contract stub (vary/bounds/expr honoured by assumption); obj2bytes token; absolute ranges only (relative/plateau: C05, C11); N<=8",
+  "technique": SYMX},
 ]
 _PENDING = "check not built yet in this round (planned in DESIGN.md section 4)"
 NOT_APPLICABLE = [
  {"property_id": "C01", "reason": "recovery of generating parameters is a statement about MINPACK/Nelder-Mead convergence (iterative compiled floating point, data-dependent trip count, noise): not encodable for a solver; stubbing the optimiser would assume the conclusion. Optimiser-independent parts are decided under C04/C05/C11/C13."},
-] + [{"property_id": f"C{i:02d}", "reason": _PENDING} for i in range(3, 21)]
+] + [{"property_id": f"C{i:02d}", "reason": _PENDING} for i in range(3, 21) if i not in (4,)]
